@@ -59,3 +59,22 @@ Proof.
   - intros doc. apply parity_values. eapply parse_builds_acc_clean. exact H.
 Qed.
 Print Assumptions C12_end_to_end.
+
+(* From the path text (AccFilt.v): the same path of steps and filters parsed with accessor mode off and on returns the same
+   values in the same order — plain in one mode, wrapped with the locations the walk reaches in the other — or fails in both. *)
+From JP Require Import Json Eval WF EvalInv1 KeyDefs FiltChain FiltChainAddr AccFilt.
+From Coq Require Import List. Import ListNotations.
+Theorem C12_modes_agree_from_text : forall cfgP cfgA parse_float regex_ok ffun afun regex_match,
+  (forall f v w, small v -> ffun f v = Some w -> small w) ->
+  (forall f l w, Forall small l -> afun f l = Some w -> small w) ->
+  cfg_accessor cfgP = false -> cfg_accessor cfgA = true ->
+  forall x r doc st st', forallb fstep_ok (x :: r) = true -> forallb (fstep_okp parse_float regex_ok) (x :: r) = true -> small doc -> ok st -> ok st' ->
+  exists tP tA, parse_with cfgP parse_float regex_ok jsonpath_grammar (fchain_path (x :: r)) = ParseOk tP /\
+                parse_with cfgA parse_float regex_ok jsonpath_grammar (fchain_path (x :: r)) = ParseOk tA /\
+    match nav_allf parse_float regex_match doc (x :: r) ([], doc) with
+    | [] => (exists e, fst (eval_run ffun afun regex_match tP doc st) = OErr e) /\ (exists e, fst (eval_run ffun afun regex_match tA doc st') = OErr e)
+    | l => fst (eval_run ffun afun regex_match tP doc st) = OOk (map (fun lv => RVal (snd lv)) l) /\
+           fst (eval_run ffun afun regex_match tA doc st') = OOk (map (fun lv => RAcc true (Some (fst lv)) (snd lv)) l)
+    end.
+Proof. exact modes_agree_from_text. Qed.
+Print Assumptions C12_modes_agree_from_text.
